@@ -216,6 +216,8 @@ VARIANTS = [
     V("twin: blueprint getter recomputed on every read", ("C13",), "", "aggregations.py", '    @cached_property\n    def new_dims(self) -> tuple[Dim]:\n        return self.new_dims_func(**self.finalize_kwargs)\n', '    @property\n    def new_dims(self) -> tuple[Dim]:\n        return self.new_dims_func(**self.finalize_kwargs)\n', expect="silent"),
     V("all-missing block answered with an untyped NaN label", ("C12", "C19"), "R-PLACEHOLDER", "core.py", '            results["groups"] = np.array([np.nan]).astype(by.dtype if by.dtype.kind in "fcmM" else np.float64)', '            results["groups"] = np.array([np.nan])', must_mention="DTypePromotionError"),
     V("twin: typed placeholder built with np.full", ("C12", "C19"), "", "core.py", '            results["groups"] = np.array([np.nan]).astype(by.dtype if by.dtype.kind in "fcmM" else np.float64)', '            results["groups"] = np.full((1,), np.nan).astype(by.dtype if by.dtype.kind in "fcmM" else np.float64)', expect="silent"),
+    V("count mask not switched on for product grids of several groupers", ("C05", "C07"), "R-ABSENTMASK", "core.py", 'fill_value is not None and (provided_expected or nby > 1))', 'fill_value is not None and provided_expected)', must_mention="several groupers"),
+    V("twin: product-grid condition through the number of label arrays", ("C05", "C07"), "", "core.py", 'fill_value is not None and (provided_expected or nby > 1))', 'fill_value is not None and (len(bys) > 1 or provided_expected))', expect="silent"),
     V("dtype promotion memoised with an untyped key", ("C14",), "R-MEMO", "xrdtypes.py", '        dtype = np.result_type(dtype, fill_value)\n    return dtype\n',
       '        dtype = _promote_for_fill_value(dtype, fill_value)\n    return dtype\n\n\n@functools.lru_cache\ndef _promote_for_fill_value(dtype: np.dtype, fill_value) -> np.dtype:\n    return np.result_type(dtype, fill_value)\n', must_mention="typed"),
     V("twin: dtype promotion memoised with typed=True", ("C14",), "", "xrdtypes.py", '        dtype = np.result_type(dtype, fill_value)\n    return dtype\n',
